@@ -1,5 +1,6 @@
 import JunoModel.C10.Proofs
 import JunoModel.C10.ProofsR5
+import JunoModel.C10.ProofsComplete
 /-!
 C10 — Merkle proofs verify against the root and cannot be forged by tampering.
 Property theorems only (lemmas are in `Proofs.lean`; witnesses of defects that are fixed in /repo are
@@ -213,9 +214,9 @@ theorem rpc_storage_proof_sound (A : HashAlg H) (hI : Ideal A) (commit : H → H
 `verifyMulti` is `verifyRangeWithProof`: `resolvePT` transcribes `proofToPath`, `hasRightPT`
 `hasRightElement`, and `fill` is an extensional SPECIFICATION (not a transcription) of
 `unsetInternal` + `Trie.Update` + `Hash`, tied to the code by comparing outcomes on every claim of the
-exhaustive small-space section.  Not proved: completeness of the empty / multi / no-proof cases
-(needs canonicity `build (entries t) = t`).  The legacy trie's `VerifyRangeProof` is not modelled
-(oracle only; unsound, see the known findings). -/
+exhaustive small-space section.  Completeness of all four cases is proved further down (round 5:
+`range_verify_*_complete`, `range_multi_complete`, with canonicity `build (ents t) = t`).  The legacy trie's
+`VerifyRangeProof` is not modelled (oracle only; unsound, see the known findings). -/
 
 /-- Single element, value: accepted for ANY node set ⇒ every trie with that root holds `v` at `k`. -/
 theorem range_single_sound (A : HashAlg H) (hI : Ideal A) (rc : RCfg)
@@ -366,9 +367,51 @@ theorem range_verify_all_sound (A : HashAlg H) (hI : Ideal A) (rc : RCfg) (t : T
     ∀ k, k < 2 ^ n → t.get A (pathOfNat n k) = (lastValF kvs k).getD A.zero :=
   verifyRange_all_sound hI rc true t n hwf first kvs more (Or.inl rfl) h
 
-/-! Completeness of `VerifyRangeProof` (either variant `ck`) for three of its four cases.  The general case
-(two or more keys, or `first` < the only key) is NOT proved complete — it needs canonicity of `build` through
-`fill`; it is covered by the exhaustive honest claims of the harness, which must all be accepted. -/
+/-! Completeness of `VerifyRangeProof` (either variant `ck`), all four cases (round 5; the general case was
+"not proved" before): `ents t` are the entries of the trie in key order, `rng (.at f) (.at l)` those with
+`f ≤ key ≤ l`, `Canon` = no edge node directly under an edge node (what `build`, and both real tries, maintain:
+`trie_of_entries_canon`). -/
+
+/-- the trie of ANY key/value set has no edge under an edge (hypothesis `Canon` of the completeness theorems) -/
+theorem trie_of_entries_canon (n : Nat) (kvs : List (Path × H)) (t : Tree H) (h : build n kvs = some t) :
+    Canon t :=
+  build_canon n kvs t h
+
+/-- THE GENERAL CASE (`verifyRangeWithProof`; /repo today: `unsetLeaf`): for every trie, every `first` and every
+key `last` of the trie with `first < last`, the claim that lists exactly the entries of the trie between `first`
+and `last`, offered with the proofs of `first` and `last` as `trie2.Trie.Prove` returns them (any set that
+returns those nodes for their hashes, e.g. `GetRangeProof(first, last)`), is ACCEPTED.  With `range_more` the
+returned flag is then the true one. -/
+theorem range_multi_complete (A : HashAlg H) (hI : Ideal A) (rc : RCfg) (hul : rc.unsetLeaf = true)
+    (t : Tree H) (n : Nat) (hwf : WF t n) (hcan : Canon t) (hnz : t.NZ A) (hn : 0 < n) (h256 : n < 256)
+    (first last : Path) (hf : first.length = n) (hl : last.length = n) (hfl : pathLt first last = true)
+    (hhas : t.has last = true) (cached : Bool) (P : PSet H)
+    (hlf : ∀ nd ∈ t.proveNodes A false cached first, P.get (nd.hash A) = some nd)
+    (hll : ∀ nd ∈ t.proveNodes A false cached last, P.get (nd.hash A) = some nd) :
+    ∃ more, verifyMulti A rc (t.hash A) first (rng (.at first) (.at last) (ents t)) P = RRes.ok more :=
+  multi_complete hI rc hul t n hwf hcan hnz hn h256 first last hf hl hfl hhas cached P hlf hll
+
+/-- …and through the whole exported function, keys as felts: preamble and dispatch let the honest claim through -/
+theorem range_verify_multi_complete (A : HashAlg H) (hI : Ideal A) (rc : RCfg) (hul : rc.unsetLeaf = true)
+    (ck : Bool) (t : Tree H) (n : Nat) (hwf : WF t n) (hcan : Canon t) (hnz : t.NZ A) (hn : 0 < n)
+    (h256 : n < 256) (first lastK : Nat) (v : H) (kvsF : List (Nat × H)) (hf : first < 2 ^ n)
+    (hb : ∀ kv ∈ kvsF, kv.1 < 2 ^ n) (hm : feltKeysMonotonic kvsF = true)
+    (hlastF : kvsF.getLast? = some (lastK, v)) (hlt : first < lastK)
+    (hhas : t.has (pathOfNat n lastK) = true)
+    (hmap : kvsF.map (fun kv : Nat × H => (pathOfNat n kv.1, kv.2)) =
+      rng (.at (pathOfNat n first)) (.at (pathOfNat n lastK)) (ents t))
+    (cached : Bool) (P : PSet H)
+    (hlf : ∀ nd ∈ t.proveNodes A false cached (pathOfNat n first), P.get (nd.hash A) = some nd)
+    (hll : ∀ nd ∈ t.proveNodes A false cached (pathOfNat n lastK), P.get (nd.hash A) = some nd) :
+    ∃ more, verifyRange A rc ck n (t.hash A) first kvsF (some P) = RRes.ok more :=
+  verifyRange_multi_complete hI rc hul ck t n hwf hcan hnz hn h256 first lastK v kvsF hf hb hm hlastF hlt hhas hmap
+    cached P hlf hll
+
+-- non-vacuity: the example trie is canonical, 110 is a key, and the entries between 100 and 110 are 101, 110
+example : Canon exTree := by simp [exTree, Canon]
+example : rng (.at [true, false, false]) (.at [true, true, false]) (ents exTree) =
+    [([true, false, true], .felt 5), ([true, true, false], .felt 8)] := by decide
+
 
 /-- the no-proof case: the complete sorted list of a trie (felts non-decreasing, non-zero values, below
 `2^n`) is accepted against the root of the trie of that list (`build`, which the real tries are tied to) -/
